@@ -129,6 +129,10 @@ func mutants(enc []byte, r *rand.Rand) []mutant {
 		for _, num := range []uint64{0, uint64(f.num) + 1, uint64(f.num) + 16, 1 << 28, 1 << 60} {
 			add("field-number", cat(enc[:f.start], putUvarint(num<<3|uint64(f.wire)), enc[f.keyEnd:]))
 		}
+		// keys that agree with the expected one only modulo 2^32 / 2^31 / 2^16 (shortest-form varints)
+		for _, hi := range []uint64{1 << 32, 3 << 32, 1 << 40, 1 << 63, 1 << 31, 1 << 35, 1 << 16, (1 << 32) * uint64(1+r.Intn(1<<20))} {
+			add("key-high-bits", cat(enc[:f.start], putUvarint(key+hi), enc[f.keyEnd:]))
+		}
 		add("drop-field", cat(enc[:f.start], enc[f.end:]))
 		add("duplicate-field", cat(enc[:f.end], enc[f.start:f.end], enc[f.end:]))
 		add("duplicate-field-at-end", cat(enc, enc[f.start:f.end]))
